@@ -208,8 +208,74 @@ impl Gen {
     }
 
     /// Documents with one enormous name somewhere, floods of punctuation, BOMs, comments.
+    /// Fragment cycles: a fragment that (directly, through other fragments, through a field's selection set or
+    /// through an inline fragment) spreads itself — reachable from an operation or not, in every operation kind.
+    /// Validation has to reject these without recursing forever.
+    pub fn fragment_cycle_doc(&mut self) -> String {
+        let len = 1 + self.r.below(4);
+        let on_node = self.r.bool();
+        let ty = if on_node { "Node" } else { "Query" };
+        let leaf = if on_node { "name" } else { "int" };
+        let mut frags = vec![];
+        for i in 0..len {
+            let next = format!("C{}", (i + 1) % len);
+            let body = match self.r.below(5) {
+                0 => format!("{leaf} ...{next}"),
+                1 => format!("...{next} {leaf}"),
+                2 => format!("... on {ty} {{ ...{next} }} {leaf}"),
+                3 if on_node => format!("child {{ ...{next} }}"),
+                3 => format!("{leaf} ... {{ ... {{ ...{next} }} }}"),
+                _ if on_node => format!("children(n: 1) {{ {leaf} ...{next} }} thing {{ __typename }}"),
+                _ => format!("...{next} ...{next}"),
+            };
+            frags.push(format!("fragment C{i} on {ty} {{ {body} }}"));
+        }
+        let frags = frags.join(" ");
+        let spread = if on_node { "node { ...C0 }" } else { "...C0" };
+        match self.r.below(8) {
+            // the cycle is not reachable from the operation
+            0 => format!("{{ int }} {frags}"),
+            1 if !on_node => format!("mutation {{ setInt(v: 1) }} {frags}"),
+            2 => format!("{frags} {{ {spread} }}"),
+            3 if on_node => format!("subscription {{ nodes {{ ...C0 }} }} {frags}"),
+            4 => format!("query A {{ int }} query B {{ {spread} }} {frags}"),
+            5 => format!("{{ ... on Query {{ {spread} }} }} {frags}"),
+            _ => format!("{{ {spread} }} {frags}"),
+        }
+    }
+
+    /// Block strings whose lines start with white space of every kind (ASCII blanks of different lengths mixed with
+    /// multi-byte Unicode spaces): the common-indent computation slices lines at byte offsets.
+    pub fn block_string_indent_doc(&mut self) -> String {
+        const SPACES: [&str; 12] = [" ", "  ", "\t", "   ", "\u{a0}", "\u{2003}", "\u{3000}", "\u{feff}", "\u{85}", "\u{2028}", "\u{1680}", "\u{202f}"];
+        const WORDS: [&str; 6] = ["x", "y z", "é", "\\\\", "\\\"", "\u{a0}x"];
+        let n = 2 + self.r.below(5);
+        let mut lines = vec![];
+        for _ in 0..n {
+            let mut l = String::new();
+            for _ in 0..self.r.below(4) {
+                l.push_str(*self.r.pick(&SPACES[..]));
+            }
+            if !self.r.chance(1, 5) {
+                l.push_str(*self.r.pick(&WORDS[..]));
+            }
+            lines.push(l);
+        }
+        let sep = *self.r.pick(&["\n", "\r\n", "\r"]);
+        let first = if self.r.bool() { String::new() } else { lines.remove(0) };
+        let body = format!("{first}{sep}{}{}", lines.join(sep), if self.r.bool() { sep } else { "" });
+        match self.r.below(4) {
+            0 => format!("{{ string(v: \"\"\"{body}\"\"\") }}"),
+            1 => format!("{{ strings(v: [\"\"\"{body}\"\"\", \"\"\"{body}\"\"\"]) }}"),
+            2 => format!("query($s: String = \"\"\"{body}\"\"\") {{ string(v: $s) }}"),
+            _ => format!("{{ rec(v: {{name: \"\"\"{body}\"\"\", n: 1, f: 1.5}}) }}"),
+        }
+    }
+
     pub fn odd_shape_doc(&mut self) -> String {
-        match self.r.below(22) {
+        match self.r.below(30) {
+            22..=25 => self.fragment_cycle_doc(),
+            26..=28 => self.block_string_indent_doc(),
             0 => format!("{{ {} }}", self.long_name()),
             1 => format!("{{ {}: int }}", self.long_name()),
             2 => format!("{{ int({}: 1) }}", self.long_name()),
